@@ -162,7 +162,7 @@ def lake_build(targets):
     return rc == 0, out
 
 
-def build_and_audit(pid, extra_targets=()):
+def build_and_audit(pid, extra_targets=(), extra_props=()):
     """Build Props/<pid>.lean and audit its theorems.
 
     Returns dict: theorems (list of names), failed (dict name -> reason), axioms (dict name -> list),
@@ -170,9 +170,15 @@ def build_and_audit(pid, extra_targets=()):
     prop_mod = 'PyCraft.Props.%s' % pid
     prop_file = os.path.join(LEAN, 'PyCraft', 'Props', '%s.lean' % pid)
     thms, n_examples = theorems_of(prop_file)
+    prop_mods = [prop_mod]
+    for ep in extra_props:      # further Props files belonging to the same property (e.g. C05Hand)
+        t2, n2 = theorems_of(os.path.join(LEAN, 'PyCraft', 'Props', '%s.lean' % ep))
+        thms += t2
+        n_examples += n2
+        prop_mods.append('PyCraft.Props.%s' % ep)
     res = {'theorems': [t for t, _ in thms], 'failed': {}, 'axioms': {}, 'examples': n_examples,
            'forbidden': grep_forbidden(), 'build_output': ''}
-    ok, out = lake_build([prop_mod, 'driver'] + list(extra_targets))
+    ok, out = lake_build(prop_mods + ['driver'] + list(extra_targets))
     if not ok:
         res['build_output'] = out[-6000:]
         # attribute errors: positions inside the Props file -> the enclosing theorem; errors in any
@@ -198,7 +204,7 @@ def build_and_audit(pid, extra_targets=()):
                     'does not check (line %d)' % line
         return res
     # audit axioms
-    audit = 'import %s\n' % prop_mod + ''.join('#print axioms %s\n' % t for t, _ in thms)
+    audit = ''.join('import %s\n' % m for m in prop_mods) + ''.join('#print axioms %s\n' % t for t, _ in thms)
     apath = os.path.join(LEAN, 'PyCraft', 'Audit', '%s.lean' % pid)
     write_if_changed(apath, audit)
     with BuildLock():
